@@ -79,6 +79,7 @@ class Registry:
         self.dropped_calls = set(DROPPED_CALL_PREFIXES)
         self.context_managers: list[tuple[str, str]] = []  # (regex on source text, kind)
         self.dropped_stmts: list[str] = []  # regexes on statement source text: dropped by the extraction (statistics counters)
+        self.opaque_names: dict[str, str] = {}  # module-level names treated as unconstrained values of a declared type
         self.dynamic_dispatch: dict[str, str] = {}  # regex on call source text -> contract qualname
         self.properties: dict[str, dict] = {}  # property id -> {functions:[...], bounded:[...], ...}
 
